@@ -314,8 +314,18 @@ impl Ctx<'_> {
         }
         else {
             self.expect.rrdp_repos.insert(notify.into());
+            let oversize = match (
+                self.cfg.max_object_size,
+                self.transport.rrdp_objects.get(notify)
+            ) {
+                (Some(max), Some(objects)) => objects.values().any(|id| {
+                    self.files.get(*id).bytes.len() as u64 > max
+                }),
+                _ => false
+            };
             let fail = self.transport.rrdp_fail.contains(notify)
-                || !self.transport.rrdp_objects.contains_key(notify);
+                || !self.transport.rrdp_objects.contains_key(notify)
+                || oversize;
             if !fail {
                 self.state.rrdp_copy.insert(notify.into(), RrdpCopy {
                     objects: self.transport.rrdp_objects[notify].clone(),
